@@ -541,6 +541,7 @@ func c16RunPairs(r *verdict.Run, pairs []c16Pair, opsPerConn int, shard int) []h
 	}()
 	c.Ctl("seed %d", r.Seed*31+int64(shard))
 	c.Ctl("yield ds: 150 100")
+	c.Ctl("yield cs:checking 200 100")
 	env := &c16Env{e: e}
 	for _, p := range pairs {
 		if !c.Alive() {
@@ -590,6 +591,9 @@ func c16RunPairs(r *verdict.Run, pairs []c16Pair, opsPerConn int, shard int) []h
 		case <-finished:
 		case <-time.After(4 * time.Minute):
 			dump := c.SigQuitDump()
+			if f := os.Getenv("C16_DUMP"); f != "" {
+				os.WriteFile(f, []byte(dump), 0o644)
+			}
 			r.Report("c16/stall/"+c16Classes[p.a].name+"+"+c16Classes[p.b].name, fmt.Sprintf("the pair %s + %s did not finish within 4 minutes; goroutines of the emulator:\n%s", c16Classes[p.a].name, c16Classes[p.b].name, c16Busy(dump)), map[string]any{"dump_head": headLines(dump, 200)})
 			<-finished
 		}
@@ -650,6 +654,17 @@ func checkC16(r *verdict.Run) {
 	rng := shardRng(r, 0)
 	rng.Shuffle(len(all), func(i, j int) { all[i], all[j] = all[j], all[i] })
 	pairs := all
+	if only := os.Getenv("C16_ONLY"); only != "" {
+		// debugging aid: C16_ONLY="classA+classB" runs that pair 64 times
+		pairs = nil
+		for _, p := range all {
+			if n := c16Classes[p.a].name + "+" + c16Classes[p.b].name; n == only {
+				for k := 0; k < 64; k++ {
+					pairs = append(pairs, p)
+				}
+			}
+		}
+	}
 	ops := 40
 	repeat := 1
 	if r.Tier == "quick" {
